@@ -302,16 +302,25 @@ def run(ck):
     if os.environ.get('VERIF_COVERAGE') == '1':
         return coverage_mode(ck)
     ck.level = 'proof'
+    # translator: regenerate the Lean definitions of the decision / arithmetic functions from the CURRENT tree
+    gen = os.path.join(LEAN, 'MpVerif', 'Gen', 'C13Gen.lean')
+    rc, out, err = sh([sys.executable, os.path.join(VERIF, 'translators', 'gen_c13.py'), REPO, gen], timeout=600)
+    ck.log((out.strip() or err.strip())[-300:])
+    translator_ok = rc == 0
     proof_ok, failing = ck.proof_stage('MpVerif.C13.Props', 'MpVerif/C13/Props.lean', 'C13_',
-                                        ['MpVerif/C13/*.lean'], expect_min=10)
+                                        ['MpVerif/C13/*.lean', 'MpVerif/Gen/C13Gen.lean'], expect_min=12)
+    if not translator_ok:
+        failing.append('translator gen_c13.py: ' + (out + err).strip()[-300:])
+        proof_ok = False
     ck.log('proof stage: ok=%s failing=%s' % (proof_ok, failing[:8]))
     # proof-only modules that need Mathlib (not imported by the driver): the chord-error lemma over the reals, and
     # monotonicity / idempotence of the model's concrete rounding functions => C13_increasing for the IEEE instance
     extra_thms = []
-    for mod, nmin in (('MpVerif.C13.PropsIEEE', 6), ('MpVerif.C13.Chord', 5)):
+    for mod, nmin in (('MpVerif.C13.PropsGen', 14), ('MpVerif.C13.PropsIEEE', 6), ('MpVerif.C13.Chord', 5)):
         okm, outm = ck.lake([mod])
         if not okm:
-            failing.append('%s does not build: %s' % (mod, outm[-300:]))
+            bad_decls = ck.failing_decls(outm, mod.replace('.', '/') + '.lean')
+            failing.append('%s does not build: %s %s' % (mod, bad_decls[:8], '' if bad_decls else outm[-300:]))
             proof_ok = False
             ck.cov['obligations'] = ck.cov.get('obligations', 0) + nmin
             continue
@@ -326,9 +335,9 @@ def run(ck):
             ck.cov['discharged'] = ck.cov.get('discharged', 0) + len(th)
             extra_thms += [n for n, _ in th]
     ck.cov['theorems'] = ck.cov.get('theorems', []) + extra_thms
-    ck.cov['checker_cmd'] = ck.cov.get('checker_cmd', '') + ' ; same for MpVerif.C13.PropsIEEE and MpVerif.C13.Chord'
+    ck.cov['checker_cmd'] = ck.cov.get('checker_cmd', '') + ' ; same for MpVerif.C13.PropsGen (definitions regenerated by translators/gen_c13.py), MpVerif.C13.PropsIEEE and MpVerif.C13.Chord'
     if ck.tier == 'thorough' and proof_ok:
-        bad = ck.leanchecker(['MpVerif.C13.Props', 'MpVerif.C13.PropsIEEE', 'MpVerif.C13.Chord'])
+        bad = ck.leanchecker(['MpVerif.C13.Props', 'MpVerif.C13.PropsGen', 'MpVerif.C13.PropsIEEE', 'MpVerif.C13.Chord'])
         if bad:
             failing += ['leanchecker rejected %s' % m for m in bad]
             proof_ok = False
@@ -679,7 +688,7 @@ def run(ck):
         'production build: -DNDEBUG (assert() off, MP_ASSERT_ALWAYS on), -O1, x86-64 SSE2 double arithmetic without FMA contraction',
         'the tolerance clause (|f - PL| <= tol at every real point) is explored numerically only: libm values, long double reference',
     ]
-    ck.cov['trusted_base'] += ['libm (both the code under test and the long-double reference of the exploration oracle)',
+    ck.cov['trusted_base'] += ['translators/tr_c13.py + clang-14 AST: C++ double operations are read as the model\'s rounded operations on exact rationals, std::max/min/fabs/floor/ceil by their textbook definitions (cross-checked by the bit-exact correspondence of the hand model, which is proved equal to the generated definitions)', 'libm (both the code under test and the long-double reference of the exploration oracle)',
                                'the tabulated-oracle interface: the tracing subclass of the real PLApproximator<Con> (checked to produce identical outputs)']
     ck.notes.append('claimed level: partial — structural clauses proved on the skeleton model and tied bit-exactly to the real code; tolerance clause explored only')
 
